@@ -290,7 +290,9 @@ func (c *Conn) GetNextActionFromByte(start int64) *NextActionInfo {
 		ind := sort.Search(len(actions),
 			func(i int) bool { return actions[i].getByte() >= start })
 
-		return c.GetNextActionFromIndex(int64(ind))
+		// The read locks are already held: taking them again in GetNextActionFromIndex would
+		// deadlock with a configuration update waiting for the write lock in between.
+		return nextActionFromIndex(actions, int64(ind))
 	}
 
 	return &NextActionInfo{
@@ -313,10 +315,13 @@ func (c *Conn) GetNextActionFromIndex(ind int64) *NextActionInfo {
 	c.Shapes.M[c.Context.URLRegex].RLock()
 	defer c.Shapes.M[c.Context.URLRegex].RUnlock()
 
-	actions := c.Shapes.M[c.Context.URLRegex].Shape.Actions
+	return nextActionFromIndex(c.Shapes.M[c.Context.URLRegex].Shape.Actions, ind)
+}
 
+// nextActionFromIndex returns the first action at or after index ind whose count is not exhausted.
+// The caller must hold the locks protecting actions.
+func nextActionFromIndex(actions []Action, ind int64) *NextActionInfo {
 	if l := int64(len(actions)); l != 0 {
-
 		for ind < l && (actions[ind].getCount() == 0) {
 			ind++
 		}
